@@ -566,6 +566,34 @@ def r11_trailer_errors_count(ctx):
                  % (lvl, cname, 'SE' if lvl == 'st' else 'GE', 'set' if lvl == 'st' else 'group'))
 
 
+def r14_error_totals(ctx):
+    """the verdict rests on err_handler.get_error_count(): structural errors (counts, missing or unknown segments, repeat
+    limits) do not touch the `valid` flag, only this total.  Each get_error_count of the error tree is decided by
+    constant propagation on a node with several children / elements / own errors of known counts: the result is the
+    SUM over all of them (an accumulator that is overwritten instead of added to counts only the last interchange,
+    group or set)."""
+    from ..absint import run_function, NotClosedTest
+
+    def kid(n):
+        return A.Model('kid%d' % n, get_error_count=lambda n=n: n, err_count=lambda n=n: n)
+    for cname, fields in (('err_handler', ('children',)), ('err_node', ('children',)), ('err_isa', ('elements', 'children', 'errors')),
+                          ('err_gs', ('elements', 'children', 'errors'))):
+        fn = ctx.func('error_handler', cname + '.get_error_count')
+        bad = []
+        for kids, eles, errs in (((2, 0, 3), (1,), 2), ((1, 2), (), 0), ((0, 0, 0), (0,), 0), ((), (), 1), ((4,), (2, 3), 1), ((1, 0), (), 0)):
+            env = {'self.children': tuple(kid(n) for n in kids), 'self.elements': tuple(kid(n) for n in eles), 'self.errors': tuple(('c', 'm') for _ in range(errs))}
+            want = sum(kids) + (sum(eles) if 'elements' in fields else 0) + (errs if 'errors' in fields else 0)
+            try:
+                got = run_function(ctx.cfg(fn), fn, [None], {}, env=env)
+            except (NotClosedTest, A.NotClosed) as e:
+                raise AnalysisError('%s.get_error_count cannot be decided: %s' % (cname, e))
+            if got != want:
+                bad.append('children with %s errors%s%s: the total is %s, not %s' % (
+                    list(kids), ', elements with %s' % list(eles) if 'elements' in fields else '', ', %d own' % errs if 'errors' in fields else '', got, want))
+        yield Ob('error_handler:%s.get_error_count is the sum over everything below the node' % cname, not bad, ctx.floc(fn),
+                 '' if not bad else bad[0] + ' - errors in an earlier interchange / group / set are reported but the verdict stays True')
+
+
 def r13_segment_items(ctx):
     """every segment error with a standard code gets its AK3/IK3, and the element errors of a segment are itemised under
     an AK3/IK3 of that segment: visit_seg of both visitors, decided by constant propagation for every combination of
@@ -666,6 +694,7 @@ RULES = [
     Rule('C05.R8', 'shared with C04.R1: the received-set count the acknowledgement reports is the reader\'s, counted unconditionally', r8_shared_reader_counts, floor=37),
     Rule('C05.R9', 'reader errors are handed to the error tree before the loop they concern is closed', r9_reader_errors_before_close, floor=3),
     Rule('C05.R10', 'AK401/IK401 carry element, component and repetition position each in its own place', r10_element_position, floor=4),
+    Rule('C05.R14', 'get_error_count of every error-tree level is the sum over children, elements and own errors (constant propagation)', r14_error_totals, floor=3),
     Rule('C05.R13', 'visit_seg: an AK3/IK3 for every standard segment code and for every segment with element errors (constant propagation)', r13_segment_items, floor=2),
     Rule('C05.R12', 'ISA05-08 / GS02-03 of the acknowledgement are the received receiver and sender, swapped', r12_addressed_to_sender, floor=9),
     Rule('C05.R11', 'errors on SE/GE themselves are reflected in the set/group code (validated before close, or code evaluated when read)', r11_trailer_errors_count, floor=2),
